@@ -316,3 +316,60 @@ package core
 //@   ensures! fast5: old(tsCount) + 1 < old(tsLimit) && old(tsLimit) == 5 ==> typeis(r, "SuDate") && unbox(r, "SuDate") == tsLast && tsLast.date == old(tsLast.date) && tsLast.time == old(tsLast.time) + 1 && tsCount == old(tsCount) + 1 && tsLimit == 5
 //@   ensures! fast256: old(tsCount) + 1 < old(tsLimit) && old(tsLimit) == 256 ==> typeis(r, "SuTimestamp") && unbox(r, "SuTimestamp").SuDate == old(tsLast) && tsLast == old(tsLast) && unbox(r, "SuTimestamp").extra == tsCount && tsCount == old(tsCount) + 1 && 1 <= tsCount && tsCount <= 255
 //@   ensures! fetch: !(old(tsCount) + 1 < old(tsLimit)) ==> typeis(r, "SuDate") && unbox(r, "SuDate") == tsLast && tsCount == 0 && (dMs(tsLast) < 500 ==> tsLimit == 5) && (dMs(tsLast) >= 500 ==> tsLimit == 256)
+
+//@ property C13
+// ---- packed numbers ------------------------------------------------------------------------
+// A finite non-zero decimal packs as: tag (PackMinus 2 / PackPlus 3), exponent byte, then the
+// 16 digit coefficient as up to eight base-100 digit pairs with trailing zero pairs dropped;
+// for negative numbers every byte after the tag is complemented. PackSize is exactly the number
+// of bytes Pack writes (the Encoder has a fixed size buffer: one byte more would panic).
+// the base-100 digits of a 16 digit coefficient, most significant first, written as the
+// successive remainders (pack_pairs_roundtrip and pack_pairs_are_bytes show that these are the
+// base-100 digits: they are all in 0..99 and recombine to c)
+//@ spec rem14(c int) int = c % 100000000000000
+//@ spec rem12(c int) int = rem14(c) % 1000000000000
+//@ spec rem10(c int) int = rem12(c) % 10000000000
+//@ spec rem8(c int) int = rem10(c) % 100000000
+//@ spec rem6(c int) int = rem8(c) % 1000000
+//@ spec rem4(c int) int = rem6(c) % 10000
+//@ spec rem2(c int) int = rem4(c) % 100
+//@ spec pairAt(c int, j int) int = j == 0 ? c / 100000000000000 : j == 1 ? rem14(c) / 1000000000000 : j == 2 ? rem12(c) / 10000000000 : j == 3 ? rem10(c) / 100000000 : j == 4 ? rem8(c) / 1000000 : j == 5 ? rem6(c) / 10000 : j == 6 ? rem4(c) / 100 : rem2(c)
+//@ spec dnFinite(d dnum.Dnum) bool = d.sign == 1 || d.sign == -1
+//@ spec dnPackSize(d dnum.Dnum) int = d.sign == 0 ? 1 : !dnFinite(d) ? 3 : rem14(d.coef) == 0 ? 3 : rem12(d.coef) == 0 ? 4 : rem10(d.coef) == 0 ? 5 : rem8(d.coef) == 0 ? 6 : rem6(d.coef) == 0 ? 7 : rem4(d.coef) == 0 ? 8 : rem2(d.coef) == 0 ? 9 : 10
+//@ spec cpl(neg bool, b int) int = neg ? 255 - b : b
+//@ spec dnPackByte(d dnum.Dnum, i int) int = i == 0 ? (d.sign < 0 ? 2 : 3) : !dnFinite(d) ? cpl(d.sign < 0, 255) : i == 1 ? cpl(d.sign < 0, d.exp + 128) : cpl(d.sign < 0, pairAt(d.coef, i - 2))
+//@ spec packedAt(e *pack.Encoder, l int, d dnum.Dnum, i int) bool = i < dnPackSize(d) ==> e.buf[l + i] == dnPackByte(d, i)
+
+//@ func (dn SuDnum) PackSize(hash) (r)
+//@   ensures! r == dnPackSize(dn.Dnum)
+//@ func (dn SuDnum) PackSize2(hash, stack) (r)
+//@   ensures! r == dnPackSize(dn.Dnum)
+//@ func (dn SuDnum) Pack(hash, buf)
+//@   requires buf != nil && len(buf.buf) + dnPackSize(dn.Dnum) <= cap(buf.buf)
+//@   modifies buf.buf, elems(buf.buf)
+//@   ensures! size: len(buf.buf) == old(len(buf.buf)) + dnPackSize(dn.Dnum) && cap(buf.buf) == old(cap(buf.buf)) && ref(buf.buf) == old(ref(buf.buf))
+//@   ensures! kept: forall j :: 0 <= j && j < old(len(buf.buf)) ==> buf.buf[j] == old(buf.buf[j])
+//@   ensures! byte0: packedAt(buf, old(len(buf.buf)), dn.Dnum, 0)
+//@   ensures! byte1: packedAt(buf, old(len(buf.buf)), dn.Dnum, 1)
+//@   ensures! byte2: packedAt(buf, old(len(buf.buf)), dn.Dnum, 2)
+//@   ensures! byte3: packedAt(buf, old(len(buf.buf)), dn.Dnum, 3)
+//@   ensures! byte4: packedAt(buf, old(len(buf.buf)), dn.Dnum, 4)
+//@   ensures! byte5: packedAt(buf, old(len(buf.buf)), dn.Dnum, 5)
+//@   ensures! byte6: packedAt(buf, old(len(buf.buf)), dn.Dnum, 6)
+//@   ensures! byte7: packedAt(buf, old(len(buf.buf)), dn.Dnum, 7)
+//@   ensures! byte8: packedAt(buf, old(len(buf.buf)), dn.Dnum, 8)
+//@   ensures! byte9: packedAt(buf, old(len(buf.buf)), dn.Dnum, 9)
+
+// unpackDnum rebuilds the coefficient from the digit pairs (missing trailing pairs are zero)
+//@ spec unpByte(s string, i int, xor byte) int = i < len(s) ? (s[i] ^ xor) : 0
+//@ spec unpCoef(s string, xor byte) int = unpByte(s, 2, xor) * 100000000000000 + unpByte(s, 3, xor) * 1000000000000 + unpByte(s, 4, xor) * 10000000000 + unpByte(s, 5, xor) * 100000000 + unpByte(s, 6, xor) * 1000000 + unpByte(s, 7, xor) * 10000 + unpByte(s, 8, xor) * 100 + unpByte(s, 9, xor)
+//@ func unpackDnum(s, sign, exp, xor) (r)
+//@   requires (sign == 1 || sign == -1) && (xor == 0 || xor == 255) && 1000000000000000 <= unpCoef(s, xor) && unpCoef(s, xor) <= 9999999999999999
+//@   panics_if len(s) < 3 || len(s) > 10
+//@   ensures! r.sign == sign && r.exp == exp && r.coef == unpCoef(s, xor)
+
+// the digit pairs written by Pack recombine to the coefficient (so unpackDnum inverts Pack),
+// complementing twice is the identity, and dropping trailing zero pairs loses nothing
+//@ lemma! pack_pairs_roundtrip(c int): 0 <= c && c <= 9999999999999999 ==> pairAt(c, 0) * 100000000000000 + pairAt(c, 1) * 1000000000000 + pairAt(c, 2) * 10000000000 + pairAt(c, 3) * 100000000 + pairAt(c, 4) * 1000000 + pairAt(c, 5) * 10000 + pairAt(c, 6) * 100 + pairAt(c, 7) == c
+//@ lemma! pack_dropped_pairs_zero(d dnum.Dnum, i int): validDnum(d) && dnFinite(d) && dnPackSize(d) <= i && i <= 9 ==> pairAt(d.coef, i - 2) == 0
+//@ lemma! pack_pairs_are_bytes(c int, j int): 0 <= c && c <= 9999999999999999 && 0 <= j && j <= 7 ==> 0 <= pairAt(c, j) && pairAt(c, j) <= 99
